@@ -38,7 +38,7 @@ type c17Op struct {
 
 func TestC17(t *testing.T) {
 	r, e := start(t, "C17",
-		"random histories (<= 12 operations quick, <= 30 thorough) of write(p,s), write(p,s,false), write(p,s,true) (the flag spelled as a literal, a variable, a comparison or exists(p) where that has the wanted value), read(p) (only where the model says p exists) and exists(p) over 2-4 paths drawn from {plain, sub-directory, blank, double blank, leading dash, ;, *, $, ', leading blank, &} and contents from {neutral, empty, edge blanks, blank runs, quotes, $, $(cmd), backquote, backslash, glob, -n, tab, shell metacharacters, #, embedded newline, !, %}; the whole history is one generated program, values literal or held in variables read from stdin, half the time executed inside a function with paths/contents as parameters. Oracle: model map[path][]line: file bytes = lines joined by newline + newline, read = lines joined, exists = key present; the sandbox afterwards holds exactly the model's files. Non-trivial = append after overwrite after append on one path, or >= 2 paths with a non-plain path or content; distinct by history.",
+		"random histories (<= 12 operations quick, <= 30 thorough) of write(p,s), write(p,s,false), write(p,s,true) (the flag spelled as a literal, a variable, a comparison or exists(p) where that has the wanted value), read(p) (only where the model says p exists) and exists(p) over 2-4 paths drawn from {plain, sub-directory, blank, double blank, leading dash, ;, *, $, ', leading blank, &} and contents from {neutral, empty, edge blanks, blank runs, quotes, $, $(cmd), backquote, backslash, glob, -n, tab, shell metacharacters, #, embedded newline, !, %}; the whole history is one generated program (a third of the operations wrapped in a construct that runs them once: taken branch, else branch, one-pass loop, switch case, branch inside a loop), values literal or held in variables read from stdin, half the time executed inside a function with paths/contents as parameters. Oracle: model map[path][]line: file bytes = lines joined by newline + newline, read = lines joined, exists = key present; the sandbox afterwards holds exactly the model's files. Non-trivial = append after overwrite after append on one path, or >= 2 paths with a non-plain path or content; distinct by history.",
 		[]string{"reading a missing file is outside the statement (never generated)", "contents ending in a newline are not generated (read strips trailing newlines by definition)", "values containing $, backquote, double quote or backslash are supplied at run time through input(): as source literals they fall under the listed C08 finding"})
 	defer r.Flush()
 	maxOps := e.Pick(12, 30)
@@ -139,9 +139,18 @@ func TestC17(t *testing.T) {
 			}
 			return map[bool]string{true: "true", false: "false"}[want]
 		}
-		for _, op := range ops {
+		bodyAll := &body
+		for opIdx, op := range ops {
+			var body strings.Builder // one operation; possibly wrapped into a block that runs it once
+			wrap := 0
+			if gen.Uniform(0, 2).Draw(t, "wrapped") == 0 {
+				wrap = gen.Uniform(1, 5).Draw(t, "wrap-form")
+				r.Class(fmt.Sprintf("wrapped:%d", wrap))
+			}
+			flush := func() { bodyAll.WriteString(wrapInBlock(body.String(), wrap, opIdx)) }
 			if op.kind == "exists-dir" {
 				body.WriteString("print(\"exists\", exists(\"sub\"), exists(\"nosuchdir\"))\n")
+				flush()
 				expOut += "exists 1 0\n"
 				continue
 			}
@@ -171,6 +180,7 @@ func TestC17(t *testing.T) {
 					expOut += "exists 0\n"
 				}
 			}
+			flush()
 		}
 		var src strings.Builder
 		if flagVars {
